@@ -108,6 +108,7 @@ type Rig struct {
 	// observed UID history for C04: box -> uid -> message
 	uidSeen     map[string]map[int]string
 	uidNextSeen map[string]int
+	validity    map[string]int // UIDVALIDITY per mailbox as last established (start of the behaviour / last bump)
 }
 
 func Literal(m string) []byte {
@@ -220,6 +221,9 @@ func (p *Pool) NewRig() (*Rig, error) {
 		g.mu.Lock()
 		g.GateNext = false
 		g.mu.Unlock()
+	}
+	if v, err := r.validities(); err == nil {
+		r.validity = v
 	}
 	return r, nil
 }
@@ -614,6 +618,21 @@ func (r *Rig) Exec(idx int, st *Step, prev *Step) *Drift {
 		if d := r.connOther(idx, st, prev); d != nil {
 			return d
 		}
+	case "ConnCreateWith", "ConnCreateBatch", "ConnCreateIgnore", "ConnUpdateNew", "ConnBump":
+		if d := r.connMore(idx, st, prev); d != nil {
+			return d
+		}
+	case "Bye":
+		// any command of a session whose state was invalidated: untagged BYE, no completion, connection closed
+		res = s.c.Cmd("NOOP")
+		r.logf("[%s] NOOP (state invalidated) -> status=%q bye=%v closed=%v", s.name, res.Status, res.Bye, res.Closed)
+		if res.Status != "" || !res.Bye {
+			return r.drift(idx, "status", "%s: the session's state was invalidated (UIDVALIDITY bumped), its next command was answered %q %s (BYE seen: %v); the specification predicts an untagged BYE and no completion", st.Describe(), res.Status, res.Text, res.Bye)
+		}
+		if d := r.reconnect(idx, s); d != nil {
+			return d
+		}
+		s = nil // nothing more to compare on the old connection
 	default:
 		return r.drift(idx, "harness", "unknown action %q", st.Act)
 	}
@@ -678,6 +697,9 @@ func (r *Rig) Exec(idx int, st *Step, prev *Step) *Drift {
 		if stt == nil {
 			continue
 		}
+		if inv := !stt.IsValid(); inv != st.Inv[name] {
+			return r.drift(idx, "invalid", "after %s the state of %s is invalidated: %v, specification predicts %v", st.Describe(), name, inv, st.Inv[name])
+		}
 		sel, _, msgs := stt.VerifSnapshot()
 		if !sel {
 			if st.Sel[name] != "none" {
@@ -723,6 +745,186 @@ func (r *Rig) Exec(idx int, st *Step, prev *Step) *Drift {
 				return r.drift(idx, "content", "mailbox %s holds %s, the reference model says %s", b, got, want)
 			}
 		}
+	}
+	return nil
+}
+
+// reconnect replaces the connection of a model session by a new gated one (the client logs in again).
+func (r *Rig) reconnect(idx int, s *rsess) *Drift {
+	s.c.Close()
+	g := r.gate
+	g.mu.Lock()
+	g.GateNext = true
+	g.mu.Unlock()
+	defer func() {
+		g.mu.Lock()
+		g.GateNext = false
+		g.mu.Unlock()
+	}()
+	c, err := wire.Dial(r.srv.Addr)
+	if err != nil {
+		return r.drift(idx, "harness", "reconnect: %v", err)
+	}
+	if res := c.Login("user", "pass"); res.Status != "OK" {
+		return r.drift(idx, "connection", "login after BYE: %s %s", res.Status, res.Text)
+	}
+	id, _ := g.LastState()
+	s.c, s.id, s.mirror, s.box, s.idle, s.idleTag = c, id, nil, "", false, ""
+	return nil
+}
+
+// validities reads the UIDVALIDITY of the behaviour's mailboxes through the admin session.
+func (r *Rig) validities() (map[string]int, error) {
+	out := map[string]int{}
+	for _, b := range r.opt.Boxes {
+		res := r.pool.admin.Cmd("STATUS " + r.real(b) + " (UIDVALIDITY)")
+		if res.Status != "OK" {
+			return nil, fmt.Errorf("STATUS %s: %s %s", b, res.Status, res.Text)
+		}
+		v := -1
+		for _, l := range res.Untagged {
+			if i := strings.Index(l.Text, "UIDVALIDITY "); i >= 0 {
+				fmt.Sscanf(l.Text[i:], "UIDVALIDITY %d", &v)
+			}
+		}
+		if v < 0 {
+			return nil, fmt.Errorf("STATUS %s: no UIDVALIDITY in the answer", b)
+		}
+		out[b] = v
+	}
+	return out, nil
+}
+
+// connMore: creation with flags / in batches / with ignored mailboxes, MessageUpdated with a new literal, UIDValidityBumped.
+func (r *Rig) connMore(idx int, st *Step, prev *Step) *Drift {
+	date := time.Unix(760000000, 0)
+	boxIDs := func(bs []string) []imap.MailboxID {
+		var ids []imap.MailboxID
+		for _, b := range bs {
+			ids = append(ids, r.boxID[b])
+		}
+		return ids
+	}
+	fresh := func(m string) (imap.MessageID, []byte, *imap.ParsedMessage, *Drift) {
+		lit := r.lit(m)
+		p, err := imap.NewParsedMessage(lit)
+		if err != nil {
+			return "", nil, nil, r.drift(idx, "harness", "literal does not parse: %v", err)
+		}
+		return imap.MessageID("cm-" + m + "-" + r.suffix), lit, p, nil
+	}
+	adopt := func(m string, rid imap.MessageID, lit []byte) {
+		r.remote[m] = rid
+		r.conn.Messages[rid] = &fixture.VMsg{ID: rid, Literal: lit, Boxes: map[imap.MailboxID]bool{}, Date: date}
+	}
+	noteViews := func(ms ...string) {
+		for _, b := range r.opt.Boxes {
+			for _, e := range st.DB[b] {
+				for _, m := range ms {
+					if e.M == m {
+						r.noteUID(idx, st, b, e.UID, m, "view")
+					}
+				}
+			}
+		}
+	}
+	switch st.Act {
+	case "ConnCreateWith":
+		m, b, fl, how := st.ArgStr(0), st.ArgStr(1), st.ArgStrs(2), st.ArgStr(3)
+		rid, lit, p, d := fresh(m)
+		if d != nil {
+			return d
+		}
+		var u imap.Update
+		what := fmt.Sprintf("MessagesCreated %s in %s with flags %v", m, b, fl)
+		if how == "updated" {
+			what = fmt.Sprintf("MessageUpdated(allowCreate) of unknown %s in %s with flags %v", m, b, fl)
+			u = imap.NewMessageUpdated(imap.Message{ID: rid, Flags: flagSet(fl), Date: date}, lit, boxIDs([]string{b}), p, true)
+		} else {
+			u = imap.NewMessagesCreated(false, &imap.MessageCreated{Message: imap.Message{ID: rid, Flags: flagSet(fl), Date: date}, Literal: lit, MailboxIDs: boxIDs([]string{b}), ParsedMessage: p})
+		}
+		if d := r.submit(idx, st, what, u); d != nil {
+			return d
+		}
+		if st.Status == "OK" {
+			adopt(m, rid, lit)
+			noteViews(m)
+		}
+	case "ConnCreateBatch":
+		m1, m2, b := st.ArgStr(0), st.ArgStr(1), st.ArgStr(2)
+		rid1, lit1, p1, d := fresh(m1)
+		if d != nil {
+			return d
+		}
+		rid2, lit2, p2, d := fresh(m2)
+		if d != nil {
+			return d
+		}
+		u := imap.NewMessagesCreated(false,
+			&imap.MessageCreated{Message: imap.Message{ID: rid1, Flags: imap.NewFlagSet(), Date: date}, Literal: lit1, MailboxIDs: boxIDs([]string{b}), ParsedMessage: p1},
+			&imap.MessageCreated{Message: imap.Message{ID: rid2, Flags: imap.NewFlagSet(), Date: date}, Literal: lit2, MailboxIDs: boxIDs([]string{b}), ParsedMessage: p2})
+		if d := r.submit(idx, st, fmt.Sprintf("MessagesCreated batch %s, %s in %s", m1, m2, b), u); d != nil {
+			return d
+		}
+		if st.Status == "OK" {
+			adopt(m1, rid1, lit1)
+			adopt(m2, rid2, lit2)
+			noteViews(m1, m2)
+		}
+	case "ConnCreateIgnore":
+		m, boxes := st.ArgStr(0), st.ArgStrs(1)
+		rid, lit, p, d := fresh(m)
+		if d != nil {
+			return d
+		}
+		ids := append([]imap.MailboxID{"no-such-mailbox-" + imap.MailboxID(r.suffix)}, boxIDs(boxes)...)
+		u := imap.NewMessagesCreated(true, &imap.MessageCreated{Message: imap.Message{ID: rid, Flags: imap.NewFlagSet(), Date: date}, Literal: lit, MailboxIDs: ids, ParsedMessage: p})
+		if d := r.submit(idx, st, fmt.Sprintf("MessagesCreated(ignore unknown mailboxes) %s in [unknown] + %v", m, boxes), u); d != nil {
+			return d
+		}
+		if st.Status == "OK" {
+			adopt(m, rid, lit)
+			noteViews(m)
+		}
+	case "ConnUpdateNew":
+		m, n, boxes, fl := st.ArgStr(0), st.ArgStr(1), st.ArgStrs(2), st.ArgStrs(3)
+		rid, ok := r.remote[m]
+		if !ok {
+			return r.drift(idx, "harness", "no remote id known for %s", m)
+		}
+		_, lit, p, d := fresh(n)
+		if d != nil {
+			return d
+		}
+		u := imap.NewMessageUpdated(imap.Message{ID: rid, Flags: flagSet(fl), Date: date}, lit, boxIDs(boxes), p, false)
+		if d := r.submit(idx, st, fmt.Sprintf("MessageUpdated(new literal) %s becomes %s in %v with flags %v", m, n, boxes, fl), u); d != nil {
+			return d
+		}
+		if st.Status == "OK" {
+			// the new entity carries the remote id of the old one
+			delete(r.remote, m)
+			adopt(n, rid, lit)
+			noteViews(n)
+		}
+	case "ConnBump":
+		before, err := r.validities()
+		if err != nil {
+			return r.drift(idx, "oracle", "%v", err)
+		}
+		if d := r.submit(idx, st, "UIDValidityBumped", imap.NewUIDValidityBumped()); d != nil {
+			return d
+		}
+		after, err := r.validities()
+		if err != nil {
+			return r.drift(idx, "oracle", "%v", err)
+		}
+		for _, b := range r.opt.Boxes {
+			if after[b] <= before[b] {
+				r.find("C04", "C04/uidvalidity-not-greater/bump", fmt.Sprintf("step %d %s: UIDVALIDITY of %s was %d and is %d after UIDValidityBumped", idx, st.Describe(), b, before[b], after[b]), idx)
+				return r.drift(idx, "content", "UIDVALIDITY of %s was %d and is %d after UIDValidityBumped", b, before[b], after[b])
+			}
+		}
+		r.validity = after
 	}
 	return nil
 }
@@ -1103,6 +1305,16 @@ func (r *Rig) Finish(last *Step, idx int) {
 		for i := 1; i < len(v); i++ {
 			if v[i].UID <= v[i-1].UID {
 				r.find("C04", "C04/uid-order", fmt.Sprintf("mailbox %s lists UID %d after %d", b, v[i].UID, v[i-1].UID), idx)
+			}
+		}
+	}
+	// C04: UIDVALIDITY changes through UIDValidityBumped only
+	if r.validity != nil {
+		if now, err := r.validities(); err == nil {
+			for _, b := range r.opt.Boxes {
+				if now[b] != r.validity[b] {
+					r.find("C04", "C04/uidvalidity-changed", fmt.Sprintf("mailbox %s: UIDVALIDITY was %d after the last bump (or at the start) and is %d at the end, no bump in between", b, r.validity[b], now[b]), idx)
+				}
 			}
 		}
 	}
